@@ -6,6 +6,8 @@ set -u
 export GOFLAGS=-mod=mod GOPROXY=off GOSUMDB=off GOTOOLCHAIN=local
 P=$1; D=$2; shift 2
 CHECKS=${@:-$P}
+CHECK_SH=${CHECK_SH:-/verif/check.sh}   # CHECK_SH=/root/.vp/runs/<n>/verif/check.sh: an earlier snapshot of the suite
+if [ -z "${SKIPDEMO:-}" ]; then
 W=/tmp/sbv/$P-$$
 mkdir -p /tmp/sbv
 git -C /repo worktree add -q --detach $W HEAD || exit 3
@@ -34,10 +36,11 @@ cp $D/demo_test.go $dest/zz_verif_demo_test.go
 echo "== demo WITH the change (must fail)"
 (cd $W && go test $RACE -vet=off -count=1 -run "^($names)\$" $pkg 2>&1 | grep "^--- FAIL\|^ok\|^FAIL\|DATA RACE" | head -4)
 git -C /repo worktree remove --force $W
+fi
 echo "== my checks on /repo with the patch"
 git -C /repo apply $D/patch.diff || { echo "PATCH DOES NOT APPLY TO /repo"; exit 3; }
 for c in $CHECKS; do
-  out=$(cd /verif && ./check.sh $c quick 2>&1); rc=$?
+  out=$($CHECK_SH $c quick 2>&1); rc=$?
   echo "check $c exit=$rc"; echo "$out" | grep -v KNOWN | grep "VIOLATION\|signature=\|SUMMARY\|INCONCLUSIVE" | cut -c1-330 | head -8
 done
 git -C /repo checkout -- .
